@@ -1,8 +1,9 @@
-"""C45 — jelly security policy: real `jelly.unjelly` under a real `SecurityOptions`, with
+"""C45 — jelly security policy and round trip: real `jelly.unjelly` under a real `SecurityOptions`, with
 `jelly.namedAny/namedObject/_createBlank` and `builtins.__import__` wrapped by logging shims,
 vs the Lean model (`TwistedModel/Spread/Jelly.lean`); plus the property oracle on the real code
 (every import / resolution / instantiation / returned object is allowed by the policy) and the
-jelly→unjelly round trip of random allowed object graphs (shared, cyclic)."""
+jelly→unjelly round trip of random allowed object graphs (shared, cyclic): oracle by graph isomorphism on the real
+objects, and tie of the heap model (`TwistedModel/Spread/JellyHeap.lean`: same jelly s-expression, isomorphic result heap)."""
 import builtins
 import datetime
 import decimal
@@ -20,8 +21,10 @@ RULE = ("grammar-based s-expressions over every jelly type tag (bytes and str ta
         "(os.system, subprocess.Popen, builtins.eval, re-exports of them through an allowed module, submodules, nested "
         "classes, metaclass classes), registry/factory tags, reference/dereference with small id pools, malformed shapes; "
         "policies built through the SecurityOptions API (allowTypes/allowModules/allowInstancesOf/allowBasicTypes) from "
-        "random subsets; random allowed object graphs for the round trip; distinct = (op, outcome class, set of type tags "
-        "used, which event kinds occurred, quirk flag)")
+        "random subsets; random allowed object graphs for the round trip (lists, tuples, sets, frozensets, dicts, instances "
+        "with and without __setstate__, an instance's state object possibly a node of the graph itself; shared and cyclic), "
+        "each run through the real jelly/unjelly and through the heap model; distinct = (op, outcome class, set of type tags "
+        "used, which event kinds occurred, quirk flag) / for round trips (outcome, container kinds, number of references)")
 ASSUMES = [
     "the world (what names import / resolve to) is the fixed table tied by the `world` case: synthetic modules c45safe, "
     "c45safe.sub, c45evil plus os, os.path, subprocess, builtins; the Lean theorems quantify over every world",
@@ -35,6 +38,12 @@ ASSUMES = [
     "dictionary keys inside one dictionary are distinct",
     "reference ids are compared structurally by the model: an int id and a numerically equal float id (1 and 1.0, one "
     "dict key in Python) are not mixed in one s-expression",
+    "round trip (heap model): leaves (None, str, bool, Decimal, dates, classes, functions, modules) are identified with "
+    "their jelly [tag, atom...] - the per-leaf conversions are checked by the oracle on the real objects only; bound "
+    "methods, Jellyable/Unjellyable hooks and persistentStore are not in the heap model; dict keys / set elements are "
+    "compared as model references (same leaf or same object), Python == between distinct references is not modelled",
+    "round trip theorem jelly_unjelly_roundtrip_partial: the graph is acyclic (a rank decreases along every edge) and "
+    "well formed (RT.WF); cyclic graphs are covered by the differential tie and the oracle only",
 ]
 TRUSTED = ["logging shims around jelly.namedAny/namedObject/_createBlank and builtins.__import__ (calls from jelly.py / reflect.py only)"]
 MANIFEST = {
@@ -42,9 +51,14 @@ MANIFEST = {
             "resolved, every module imported and every class instantiated by the model of _Unjellier is allowed by the "
             "policy (or registered), and so is every class/module/instance in the result; model tied to jelly.py by "
             "differential runs with instrumented namedAny/namedObject/_createBlank/__import__; oracle checks the same on "
-            "the real objects; jelly→unjelly round trip of random shared/cyclic graphs checked by graph isomorphism.",
-    "note": "trusts Lean kernel, the hand-written model of _Unjellier/SecurityOptions/reflect (differentially tied), the fixed world table",
-    "technique": "Lean 4 proof (Hoare-style invariant over the unjellier monad, induction on recursion depth) + differential tie + oracle",
+            "the real objects. Round trip: heap model of _Jellier (prepare/preserve/_cook) and of _Unjellier with crefutil's "
+            "NotKnown patching (TwistedModel/Spread/JellyHeap.lean), tied to the real jelly/unjelly on every random graph "
+            "(same s-expression, isomorphic result); theorem jelly_unjelly_roundtrip_partial: for every acyclic graph with "
+            "arbitrary sharing unjelly(jelly(g)) is an isomorphic copy (simulation proof, induction on the jellier's "
+            "recursion); cyclic graphs: oracle (graph isomorphism on the real objects) + tie only; counterexample theorems "
+            "for the two findings roundtrip-notknown-dict-key and roundtrip-notknown-instance-state.",
+    "note": "trusts Lean kernel, the hand-written models of _Unjellier/SecurityOptions/reflect and of the jellier/unjellier heaps (differentially tied), the fixed world table",
+    "technique": "Lean 4 proof (Hoare-style invariant over the unjellier monad, induction on recursion depth; simulation relation jellier/unjellier for the round trip) + differential tie + oracle",
     "design_ref": "DESIGN.md §7 C45",
 }
 
@@ -273,7 +287,13 @@ def model_line(c):
         t = []
         tokens(c["sexp"], t)
         return f"unjelly {policy_token(c['policy'])} {reg_token(c['reg'])} {','.join(t)}"
-    return None          # roundtrip of a graph: oracle-only
+    if c["op"] == "roundtrip":
+        try:
+            root, nodes = extract_heap(_graph_for(c))
+        except ValueError:
+            return None      # unbuildable graph (a cycle through immutables only)
+        return f"rt {RT_FUEL} {root} {nodes}"
+    return None
 
 
 def build_policy(ops):
@@ -529,6 +549,8 @@ def _split(out):
 
 
 def compare(c, impl_out, model_out):
+    if c["op"] == "roundtrip":
+        return compare_roundtrip(impl_out, model_out)
     if c["op"] != "unjelly":
         return impl_out == model_out
     ih, iev, ires, _ = _split(impl_out)
@@ -658,7 +680,13 @@ def build_graph(g):
         elif k == "set":
             objs[i].update(objs[j] for j in e)
         elif k.startswith("inst:"):
-            if k == "inst:S":
+            if "st" in n:
+                # the state is itself a node of the graph: the `__dict__` of an A / B (a dict node), S's `st` (any node)
+                if k == "inst:S":
+                    objs[i].st = objs[n["st"]]
+                elif type(objs[n["st"]]) is dict:
+                    objs[i].__dict__ = objs[n["st"]]
+            elif k == "inst:S":
                 objs[i].st = [objs[j] for j in e]
             else:
                 for idx, j in enumerate(e):
@@ -666,7 +694,7 @@ def build_graph(g):
     return objs[g["root"]]
 
 
-def _iso_solve(work, fwd, bwd):
+def _iso_solve(work, fwd, bwd, lax=False):
     """is there a bijection of the identity-bearing objects making every pair in `work` equal?  (backtracking
     over the pairings of set elements; `fwd`/`bwd` belong to the current branch)"""
     while work:
@@ -695,14 +723,18 @@ def _iso_solve(work, fwd, bwd):
                 return False
             la = list(a)
             for perm in itertools.permutations(list(b)):
-                if _iso_solve(work + list(zip(la, perm)), dict(fwd), dict(bwd)):
+                if _iso_solve(work + list(zip(la, perm)), dict(fwd), dict(bwd), lax):
                     return True
             return False
         elif t in _world_classes():
+            if lax and not vars(a) and not vars(b):
+                continue      # classification only (never the verdict): the identity of an empty `__dict__` is not compared
             work.append((vars(a), vars(b)))
         elif t in (types.ModuleType, type, types.FunctionType):
             if a is not b:
                 return False
+        elif isinstance(a, NotKnown):
+            continue          # only when two *results* are compared (tie): an original graph holds no NotKnown
         elif a != b:
             return False
     return True
@@ -713,32 +745,258 @@ def _iso(a, b, fwd, bwd):
     return None if _iso_solve([(a, b)], fwd, bwd) else "the graph is not isomorphic to the original"
 
 
+RT_FUEL = 400
+_GRAPHS = {}
+
+
+def _graph_for(c):
+    """the real object graph of a roundtrip case, built once (model_line and run_impl must see the same sets:
+    iteration order of a set of instances depends on their ids)"""
+    key = json.dumps(c, sort_keys=True)
+    if key not in _GRAPHS:
+        if len(_GRAPHS) > 20000:
+            _GRAPHS.clear()
+        try:
+            _GRAPHS[key] = build_graph(c["graph"])
+        except ValueError as e:
+            _GRAPHS[key] = e
+    g = _GRAPHS[key]
+    if isinstance(g, ValueError):
+        raise g
+    return g
+
+
+def _atom_tok(x, sep):
+    if isinstance(x, bytes):
+        return f"b{sep}{x.hex()}"
+    if isinstance(x, str):
+        return f"s{sep}{x.encode('utf-8').hex()}"
+    if isinstance(x, bool):
+        raise TypeError("bool atom")
+    if isinstance(x, int):
+        return f"i{sep}{x}"
+    if isinstance(x, float):
+        return f"f{sep}{x!r}"
+    raise TypeError(f"not an atom: {type(x).__name__}")
+
+
+def sexp_tokens(x, out):
+    """a real jelly s-expression in the driver's token syntax"""
+    if isinstance(x, list):
+        out.append("(")
+        for y in x:
+            sexp_tokens(y, out)
+        out.append(")")
+    else:
+        out.append(_atom_tok(x, ":"))
+
+
+_SHAPE = {list: "L", tuple: "T", set: "S", frozenset: "F", dict: "D"}
+
+
+def _instance_state(o):
+    """what `_Jellier.jelly` serialises as the state of an instance"""
+    return o.__getstate__() if hasattr(o, "__getstate__") else o.__dict__
+
+
+def extract_heap(root):
+    """a real object graph as the heap of TwistedModel/Spread/JellyHeap.lean: `(root ref, nodes)`; identity-bearing
+    objects (containers, instances, an instance's state) get an address, leaves are written as their jelly"""
+    pol = build_policy(RT_POLICY)
+    addr, nodes = {}, []
+
+    def ref(o):
+        t = type(o)
+        if t in (bytes, int, float):
+            return "a" + _atom_tok(o, "=")
+        if t in _SHAPE or t in _world_classes() or isinstance(o, NotKnown):
+            if id(o) in addr:
+                return f"p{addr[id(o)]}"
+            a = len(nodes)
+            addr[id(o)] = a
+            nodes.append(None)
+            if isinstance(o, NotKnown):
+                nodes[a] = "N:"
+            elif t is dict:
+                nodes[a] = "D:" + ",".join(r for k, v in o.items() for r in (ref(k), ref(v)))
+            elif t in _SHAPE:
+                nodes[a] = _SHAPE[t] + ":" + ",".join([ref(x) for x in o])
+            else:
+                nodes[a] = f"I.{obj_id(t)}:" + ref(_instance_state(o))
+            return f"p{a}"
+        j = jelly.jelly(o, pol)              # a leaf is identified with its jelly `[tag, atom…]`
+        if not (isinstance(j, list) and j and isinstance(j[0], bytes) and not any(isinstance(x, list) for x in j)):
+            raise TypeError(f"not a leaf: {type(o).__name__}")
+        return "/".join(["l" + j[0].hex()] + [_atom_tok(x, "=") for x in j[1:]])
+    r = ref(root)
+    return r, (";".join(nodes) if nodes else "-")
+
+
+def _atom_of(tok):
+    k, _, v = tok.partition("=")
+    if k == "b":
+        return bytes.fromhex(v)
+    if k == "s":
+        return bytes.fromhex(v).decode("utf-8")
+    if k == "i":
+        return int(v)
+    if k == "f":
+        return float(v)
+    raise ValueError(tok)
+
+
+def heap_to_py(root, nodes):
+    """inverse of `extract_heap` (used by the tie to compare two result heaps up to isomorphism)"""
+    _install_world()
+    pol = build_policy(RT_POLICY)
+    nodes = [] if nodes == "-" else [n.split(":", 1) for n in nodes.split(";")]
+    objs = [None] * len(nodes)
+    for i, (sh, _) in enumerate(nodes):
+        if sh == "L":
+            objs[i] = []
+        elif sh == "D":
+            objs[i] = {}
+        elif sh == "S":
+            objs[i] = set()
+        elif sh == "N":
+            objs[i] = NotKnown()
+        elif sh.startswith("I."):
+            cls = obj_of(sh[2:])
+            objs[i] = cls.__new__(cls)
+    building = set()
+
+    def val(r):
+        if r[0] == "p":
+            i = int(r[1:])
+            if objs[i] is None:
+                if i in building:
+                    raise ValueError("immutable cycle")
+                building.add(i)
+                kids = [val(x) for x in nodes[i][1].split(",") if x]
+                objs[i] = tuple(kids) if nodes[i][0] == "T" else frozenset(kids)
+            return objs[i]
+        if r[0] == "a":
+            return _atom_of(r[1:])
+        parts = r[1:].split("/")
+        with warnings.catch_warnings():
+            warnings.simplefilter("ignore")
+            return jelly.unjelly([bytes.fromhex(parts[0])] + [_atom_of(x) for x in parts[1:]], pol)
+    for i, (sh, ks) in enumerate(nodes):
+        if sh in "TF":
+            val(f"p{i}")
+    for i, (sh, ks) in enumerate(nodes):
+        ks = [val(x) for x in ks.split(",") if x]
+        if sh == "L":
+            objs[i].extend(ks)
+        elif sh == "D":
+            for a, b in zip(ks[::2], ks[1::2]):
+                objs[i][a] = b
+        elif sh == "S":
+            objs[i].update(ks)
+        elif sh.startswith("I."):
+            if obj_id(type(objs[i])) == "c45safe.S":
+                objs[i].st = ks[0]
+            elif type(ks[0]) is dict:
+                objs[i].__dict__ = ks[0]
+    return val(root)
+
+
+def compare_roundtrip(impl_out, model_out):
+    ihead, _, rest = impl_out.partition(" j=")
+    ij, _, ir = rest.partition(" r=")
+    if " => " not in model_out:
+        return ij == "-" and ihead == model_out       # jelly itself raised
+    mj, _, mr = model_out.partition(" => ")
+    if ij != mj:
+        return False
+    if ihead.startswith("!raised") or mr.startswith("!raised"):
+        return ihead == mr
+    iroot, _, inodes = ir.partition(" ")
+    mroot, _, mnodes = mr.partition(" ")
+    try:
+        a, b = heap_to_py(iroot, inodes), heap_to_py(mroot, mnodes)
+    except ValueError:
+        return False
+    return _iso_solve([(a, b)], {}, {})
+
+
+def _mentions_open_state(j):
+    """does the jelly hold an instance whose state is still a `NotKnown` placeholder when `_newInstance` runs?  A walk in
+    unjelly order: `[dereference, n]` is a placeholder while `[reference, n, …]` is open, or when n was bound to a
+    placeholder; a tuple / set / frozenset holding a placeholder is one (`_Tuple` / `_Container`).  Used only to name
+    the class of a round trip that has already failed."""
+    found = []
+    pending = set()
+
+    def walk(x, open_ids):
+        if not isinstance(x, list) or not x or not isinstance(x[0], bytes):
+            return False
+        t = x[0]
+        if t == b"dereference":
+            return len(x) == 2 and (x[1] in open_ids or x[1] in pending)
+        if t == b"reference" and len(x) == 3:
+            r = walk(x[2], open_ids + (x[1],))
+            if r:
+                pending.add(x[1])
+            return r
+        if t in (b"tuple", b"set", b"frozenset"):
+            return any([walk(y, open_ids) for y in x[1:]])
+        if t == b"list":
+            for y in x[1:]:
+                walk(y, open_ids)
+            return False
+        if t == b"dictionary":
+            for kv in x[1:]:
+                if isinstance(kv, list):
+                    for y in kv:
+                        walk(y, open_ids)
+            return False
+        if b"." in t and len(x) == 2:
+            if walk(x[1], open_ids):
+                found.append(t)
+        return False
+    walk(j, ())
+    return bool(found)
+
+
 def _run_roundtrip(c):
     _install_world()
     info = {"fail": None}
     try:
-        obj = build_graph(c["graph"])
+        obj = _graph_for(c)
     except ValueError:
         info["out"] = "unbuildable"
         return info
     pol = build_policy(RT_POLICY)
+    jt = "-"
     with warnings.catch_warnings():
         warnings.simplefilter("ignore")
         try:
             j = jelly.jelly(obj, pol)
+            toks = []
+            sexp_tokens(j, toks)
+            jt = ",".join(toks)
             back = jelly.unjelly(j, pol)
         except RecursionError:
             raise
         except Exception as e:  # noqa: BLE001
-            info["out"] = "!raised " + canon_exc(e)
+            info["out"] = f"!raised {canon_exc(e)} j={jt} r=-"
             key = "roundtrip-notknown-dict-key" if "dictionary key" in str(e) else "roundtrip-raises-" + canon_exc(e)
             info["fail"] = {"key": key,
                             "detail": f"jelly/unjelly of an allowed graph raised {type(e).__name__}: {e}"}
             return info
     r = _iso(obj, back, {}, {})
-    info["out"] = "preserved" if r is None else "changed"
+    root, nodes = extract_heap(back)
+    info["out"] = f"{'preserved' if r is None else 'changed'} j={jt} r={root} {nodes}"
     if r:
-        info["fail"] = {"key": "roundtrip-changed", "detail": r + f" (jelly {str(j)[:200]})"}
+        if _mentions_open_state(j):
+            key = "roundtrip-notknown-instance-state"
+        elif _iso_solve([(obj, back)], {}, {}, lax=True):
+            # the only difference: an instance's *empty* `__dict__` that the graph also references directly
+            key = "roundtrip-empty-instance-dict-identity"
+        else:
+            key = "roundtrip-changed"
+        info["fail"] = {"key": key, "detail": r + f" (jelly {str(j)[:200]})"}
     return info
 
 
@@ -911,6 +1169,12 @@ def gen_graph(rng):
             x["e"] = [j for j in (rng.randrange(n) for _ in range(m)) if nodes[j]["k"] not in ("tuple", "frozenset") or j > i]
         else:
             x["e"] = [rng.randrange(n) for _ in range(m)]
+            if k.startswith("inst:") and rng.random() < 0.2:
+                # the state object is a node of the graph too (reachable on its own, shared, possibly visited first)
+                cand = [j for j, y in enumerate(nodes) if (y["k"] in ("list", "dict", "tuple") if k == "inst:S" else y["k"] == "dict")]
+                if cand:
+                    x["st"] = rng.choice(cand)
+                    x["e"] = []
     return {"op": "roundtrip", "graph": {"nodes": nodes, "root": 0}}
 
 
@@ -924,6 +1188,17 @@ def corpus():
         {"op": "roundtrip", "graph": {"nodes": [{"k": "inst:A", "e": [1, 0]}, {"k": "list", "e": [0, 1]}], "root": 0}},
         # an instance used as a dictionary key inside its own cycle (known finding roundtrip-notknown-dict-key)
         {"op": "roundtrip", "graph": {"nodes": [{"k": "inst:B", "e": [1]}, {"k": "dict", "e": [0, 0]}], "root": 0}},
+        # an instance whose state is reached before the instance (known finding roundtrip-notknown-instance-state):
+        # d = vars(a), a.me = a, jelly(d): `_newInstance` gets a `_Dereference` and drops it; S: `st` stays a placeholder
+        {"op": "roundtrip", "graph": {"nodes": [{"k": "dict", "e": [2, 1]}, {"k": "inst:A", "e": [], "st": 0}, {"k": "bytes", "v": 0}], "root": 0}},
+        {"op": "roundtrip", "graph": {"nodes": [{"k": "list", "e": [1]}, {"k": "inst:S", "e": [], "st": 0}], "root": 0}},
+        # s.st = (s,): the state cannot be finished before the instance exists
+        {"op": "roundtrip", "graph": {"nodes": [{"k": "inst:S", "e": [], "st": 1}, {"k": "tuple", "e": [0]}], "root": 0}},
+        # a = A(); g = [vars(a), a] with vars(a) empty: `__getstate__()` is None (Python >= 3.11), the copy of `a` gets a
+        # fresh `__dict__` (known finding roundtrip-empty-instance-dict-identity)
+        {"op": "roundtrip", "graph": {"nodes": [{"k": "list", "e": [1, 2]}, {"k": "dict", "e": []}, {"k": "inst:A", "e": [], "st": 1}], "root": 0}},
+        # the same state shared but finished first: fine
+        {"op": "roundtrip", "graph": {"nodes": [{"k": "list", "e": [1, 2]}, {"k": "inst:A", "e": [], "st": 2}, {"k": "dict", "e": [3, 0]}, {"k": "bytes", "v": 1}], "root": 0}},
         # function atom: any attribute of an allowed module — a class, a module, a submodule import
         {"op": "unjelly", "policy": [["B"], T("function"), M("c45safe")], "reg": [], "sexp": [B("function"), B("c45safe.Hidden")]},
         {"op": "unjelly", "policy": [["B"], T("function"), M("c45safe")], "reg": [], "sexp": [B("function"), B("c45safe.os")]},
@@ -978,6 +1253,11 @@ def _tags_used(x, out):
 
 
 def tag(c, out):
+    if c["op"] == "roundtrip":
+        head, _, rest = out.partition(" j=")
+        j = rest.partition(" r=")[0]
+        kinds = sorted({n["k"] for n in c["graph"]["nodes"] if "e" in n})
+        return f"roundtrip:{head}|{'+'.join(kinds)}|ref{min(j.count('b:' + b'reference'.hex()), 3)}"
     if c["op"] != "unjelly":
         return c["op"] + ":" + out.split(" ")[0][:30]
     head, ev, res, _ = _split(out)
@@ -1001,7 +1281,7 @@ def shrink(c):
                     yield {"op": "roundtrip", "graph": {"nodes": nn, "root": g["root"]}}
         if len(nodes) > 1:
             last = len(nodes) - 1
-            if g["root"] != last and all(last not in n.get("e", []) for n in nodes[:-1]):
+            if g["root"] != last and all(last not in n.get("e", []) and n.get("st") != last for n in nodes[:-1]):
                 yield {"op": "roundtrip", "graph": {"nodes": [dict(x) for x in nodes[:-1]], "root": g["root"]}}
         return
     if c["op"] != "unjelly":
